@@ -430,3 +430,223 @@ def reachable_with_const_bools(body, start_bb, avoid=()):
         for sc in succs:
             work.append((sc, tuple(sorted(env.items()))))
     return out
+
+
+# ------------------------------------------------------------------------------------------
+# finite cells: path-sensitive exploration over bool locals and enum discriminants
+
+
+def _variant_count(prog, body, ty):
+    a = prog.adts_by_target[body.target].get(ty) or prog.adt(ty)
+    if a is not None and a.get("variants"):
+        return len(a["variants"])
+    if ty.startswith("core::result::Result<") or ty.startswith("core::option::Option<") or ty.startswith("core::ops::control_flow::ControlFlow<"):
+        return 2
+    return None
+
+
+_TRY_BRANCH = "core::ops::try_trait::Try::branch"
+_VARIANT_KEEPING = ("anyhow::Context::with_context", "anyhow::Context::context", "core::result::Result::map_err", "core::result::Result::map", "core::option::Option::map")
+
+
+def cell_summary(prog, callee, depth=0):
+    """{(param local, value): frozenset of result values or None} for a local function: the values (variant index / bool) its
+    result can take when the parameter holds the value; computed by exploring the function once per value"""
+    key = ("cellsum", callee.id)
+    cache = prog.__dict__.setdefault("_cell_summaries", {})
+    if key in cache:
+        return cache[key]
+    cache[key] = {}
+    out = {}
+    if depth <= 1:
+        for p in range(1, callee.n_args + 1):
+            ty = callee.local_ty(p)
+            n = 2 if ty == "bool" else _variant_count(prog, callee, ty)
+            if n is None or n > 12:
+                continue
+            for v in range(n):
+                res = set()
+                top = False
+                for bb, env in explore_cells(prog, callee, 0, {p: frozenset([v])}, depth=depth + 1):
+                    if callee.blocks[bb]["term"]["k"] == "return":
+                        e = dict(env)
+                        if 0 in e:
+                            res |= set(e[0])
+                        else:
+                            top = True
+                out[(p, v)] = None if top or not res else frozenset(res)
+    cache[key] = out
+    return out
+
+
+def cell_steps(prog, body, bb, env, depth=0):
+    """successors of (bb, env): [(succ block, env', (switch block, value taken or 'otherwise') or None)].  `env` maps locals to the
+    frozenset of values (bool as 0/1, enum variant index) they can hold; locals not in env are unknown"""
+    from .core import op_place, op_const, callee_decl
+
+    env = dict(env)
+    alias = body.__dict__.setdefault("_discr_alias", None)
+    if alias is None:
+        alias = {}
+        mutb = set()
+        for b2 in body.blocks:
+            for st in b2["stmts"]:
+                if st["k"] == "assign" and not st["dst"]["p"] and st["rv"]["k"] == "discr" and not st["rv"]["place"]["p"]:
+                    alias[st["dst"]["l"]] = st["rv"]["place"]["l"]
+                if st["k"] == "assign" and st["rv"]["k"] == "ref" and st["rv"].get("mut") and not st["rv"]["place"]["p"]:
+                    mutb.add(st["rv"]["place"]["l"])
+        body.__dict__["_discr_alias"] = alias
+        body.__dict__["_mut_borrowed"] = mutb
+    mutb = body.__dict__["_mut_borrowed"]
+
+    def val_of(op):
+        k = op_const(op)
+        if k is not None and "bool" in k:
+            return frozenset([1 if k["bool"] else 0])
+        q = op_place(op)
+        if q is not None and not q["p"]:
+            return env.get(q["l"])
+        return None
+
+    for st in body.blocks[bb]["stmts"]:
+        if st["k"] == "setdiscr":
+            if not st["dst"]["p"]:
+                env[st["dst"]["l"]] = frozenset([st["variant_idx"]])
+            continue
+        if st["k"] != "assign":
+            continue
+        d = st["dst"]
+        if d["p"]:
+            continue  # a field write leaves the discriminant alone
+        rv = st["rv"]
+        val = None
+        if rv["k"] == "use":
+            val = val_of(rv["ops"][0])
+        elif rv["k"] == "unop" and rv["op"] == "Not":
+            v = val_of(rv["ops"][0])
+            if v is not None and body.local_ty(d["l"]) == "bool":
+                val = frozenset(1 - x for x in v)
+        elif rv["k"] == "aggregate" and rv["agg"].get("kind") == "adt" and rv["agg"].get("variant") is not None and rv["agg"].get("variant_idx") is not None:
+            val = frozenset([rv["agg"]["variant_idx"]])
+        elif rv["k"] == "discr" and not rv["place"]["p"]:
+            val = env.get(rv["place"]["l"])
+        if val is None:
+            env.pop(d["l"], None)
+        else:
+            env[d["l"]] = val
+    t = body.blocks[bb]["term"]
+    succs = [(s, None) for s in body.succ[bb]]
+    if t["k"] == "call":
+        for l in list(env):
+            if l in mutb:
+                env.pop(l, None)
+        dst = t.get("dst")
+        if dst is not None and not dst["p"]:
+            env.pop(dst["l"], None)
+            c = t.get("callee")
+            dec = callee_decl(c) if c else None
+            a0 = val_of(t["args"][0]) if t.get("args") else None
+            if dec == _TRY_BRANCH and a0 is not None and t.get("args"):
+                q = op_place(t["args"][0])
+                ty = body.local_ty(q["l"]) if q is not None else ""
+                if ty.startswith("core::result::Result<"):
+                    env[dst["l"]] = a0  # Ok(0) -> Continue(0), Err(1) -> Break(1)
+                elif ty.startswith("core::option::Option<"):
+                    env[dst["l"]] = frozenset(1 - x for x in a0)  # None(0) -> Break(1), Some(1) -> Continue(0)
+            elif dec in _VARIANT_KEEPING and a0 is not None:
+                env[dst["l"]] = a0
+            elif c is not None and depth <= 1:
+                tgt = prog.body_for_callee(c, body)
+                if tgt is not None and tgt.kind != "closure":
+                    summ = cell_summary(prog, tgt, depth)
+                    res = None
+                    for i, a in enumerate(t.get("args") or []):
+                        v = val_of(a)
+                        if v is None:
+                            # an unknown value of a finite type: every value the summary knows
+                            v = frozenset(x for (pp, x) in summ if pp == i + 1)
+                            if not v:
+                                continue
+                        parts = [summ.get((i + 1, x)) for x in v]
+                        if parts and all(p is not None for p in parts):
+                            u = frozenset().union(*parts)
+                            res = u if res is None else (res & u)
+                    if res is not None:
+                        env[dst["l"]] = res
+    if t["k"] == "switch":
+        p = op_place(t["discr"])
+        if p is not None and not p["p"] and p["l"] in env:
+            cur = env[p["l"]]
+            src = alias.get(p["l"])
+            succs = []
+            explicit = set()
+            for x, tb in t["targets"]:
+                try:
+                    xv = int(x)
+                except ValueError:
+                    continue
+                explicit.add(xv)
+                if xv in cur:
+                    succs.append((tb, (p["l"], src, frozenset([xv]), (bb, xv))))
+            rest = frozenset(cur - explicit)
+            if rest and t.get("otherwise") is not None:
+                succs.append((t["otherwise"], (p["l"], src, rest, (bb, "otherwise"))))
+            out = []
+            for tb, (l, s, vals, edge) in succs:
+                e2 = dict(env)
+                e2[l] = vals
+                if s is not None and s in e2:
+                    e2[s] = e2[s] & vals if (e2[s] & vals) else vals
+                elif s is not None:
+                    e2[s] = vals
+                out.append((tb, tuple(sorted(e2.items())), edge))
+            return out
+        # unknown subject: every edge, refining the (aliased) cell along explicit values
+        out = []
+        explicit = set()
+        src = alias.get(p["l"]) if p is not None and not p["p"] else None
+        track = p is not None and not p["p"] and (body.local_ty(p["l"]) == "bool" or src is not None)
+        for x, tb in t["targets"]:
+            e2 = dict(env)
+            try:
+                xv = int(x)
+            except ValueError:
+                xv = None
+            if track and xv is not None:
+                explicit.add(xv)
+                e2[p["l"]] = frozenset([xv])
+                if src is not None:
+                    e2[src] = frozenset([xv])
+            out.append((tb, tuple(sorted(e2.items())), (bb, xv if xv is not None else x)))
+        if t.get("otherwise") is not None:
+            e2 = dict(env)
+            if track and body.local_ty(p["l"]) == "bool" and explicit == {0}:
+                e2[p["l"]] = frozenset([1])
+            elif track and src is not None:
+                n = _variant_count(prog, body, body.local_ty(src))
+                if n is not None:
+                    rest = frozenset(range(n)) - explicit
+                    if rest:
+                        e2[p["l"]] = rest
+                        e2[src] = rest
+            out.append((t["otherwise"], tuple(sorted(e2.items())), (bb, "otherwise")))
+        return out
+    return [(s, tuple(sorted(env.items())), None) for s, _ in succs]
+
+
+def explore_cells(prog, body, start_bb, env0=None, avoid=(), depth=0, limit=6000):
+    """[(block, env)] reachable from start_bb with the initial cell valuation env0 ({local: frozenset(values)})"""
+    seen = set()
+    out = []
+    work = [(start_bb, tuple(sorted((env0 or {}).items())))]
+    while work:
+        bb, envt = work.pop()
+        if (bb, envt) in seen or bb in avoid:
+            continue
+        if len(seen) > limit:
+            break
+        seen.add((bb, envt))
+        out.append((bb, envt))
+        for sc, e2, _ in cell_steps(prog, body, bb, envt, depth):
+            work.append((sc, e2))
+    return out
